@@ -178,6 +178,10 @@ std::string vh::execute(toks_t& toks, std::string& aug)
     {
         const auto ctor   = toks.s();
         auto       values = toks.fs();
+        // the histogram is a template over the iterator: integer-valued lists are also handed over in an integer container
+        // (every third one, by length), the thresholds stay reals - the counting rule must not depend on the value type
+        const auto as_int = values.size() % 3 == 1 && std::all_of(values.begin(), values.end(), is_integral);
+        auto       ivalues = as_int ? convert<std::vector<int64_t>>(values) : std::vector<int64_t>{};
         if (ctor == "thr")
         {
             const auto thr     = toks.fs();
@@ -186,7 +190,8 @@ std::string vh::execute(toks_t& toks, std::string& aug)
             {
                 throw bad_op("assert(m_thresholds.size() > 0)");
             }
-            const auto h = histogram_t::make_from_thresholds(values.begin(), values.end(), to_tensor(thr));
+            const auto h = as_int ? histogram_t::make_from_thresholds(ivalues.begin(), ivalues.end(), to_tensor(thr))
+                                  : histogram_t::make_from_thresholds(values.begin(), values.end(), to_tensor(thr));
             return print_hist(h, queries);
         }
         if (ctor == "ratios" || ctor == "pcts")
@@ -198,6 +203,13 @@ std::string vh::execute(toks_t& toks, std::string& aug)
                 !(*std::max_element(args.begin(), args.end()) < hi))
             {
                 throw bad_op("outside the asserted domain");
+            }
+            if (as_int)
+            {
+                const auto h = (ctor == "ratios")
+                                 ? histogram_t::make_from_ratios(ivalues.begin(), ivalues.end(), to_tensor(args))
+                                 : histogram_t::make_from_percentiles(ivalues.begin(), ivalues.end(), to_tensor(args));
+                return print_hist(h, queries);
             }
             const auto h = (ctor == "ratios")
                              ? histogram_t::make_from_ratios(values.begin(), values.end(), to_tensor(args))
